@@ -1,6 +1,10 @@
 //! SplitMix64: the single source of randomness.
 pub struct Rng(u64);
 
+/// bytes with a meaning in AML / resource descriptors / table framing
+pub const DICT: [u8; 28] = [0x79, 0x00, 0x01, 0xff, 0x0a, 0x0b, 0x0c, 0x0d, 0x0e, 0x10, 0x11, 0x12, 0x13, 0x14, 0x2e, 0x2f,
+    0x5b, 0x5c, 0x5e, 0x5f, 0x86, 0x47, 0x88, 0x87, 0x8a, 0x82, 0x89, 0x24];
+
 impl Rng {
     pub fn new(seed: u64) -> Self {
         Rng(seed)
@@ -29,7 +33,9 @@ impl Rng {
     /// byte-fill, asymmetric pattern, uniform.
     pub fn scalar(&mut self, bits: u32) -> u64 {
         let mask = if bits == 64 { u64::MAX } else { (1u64 << bits) - 1 };
-        match self.below(10) {
+        match self.below(12) {
+            10 => self.dict_scalar(bits),
+            11 => (self.dict_scalar(bits) | (self.next() & 0x00ff_00ff_00ff_00ff)) & mask,
             0 => 0,
             1 => 1,
             2 => mask,
@@ -41,7 +47,23 @@ impl Rng {
             _ => self.next() & mask,
         }
     }
+    /// one or two *marker* bytes (bytes that have a meaning somewhere in the encodings the crate
+    /// emits: end tag, opcodes, prefixes, descriptor tags) in random byte lanes of an otherwise zero
+    /// value — for code that inspects emitted bytes for a sentinel
+    pub fn dict_scalar(&mut self, bits: u32) -> u64 {
+        let lanes = (bits / 8).max(1) as u64;
+        let mask = if bits == 64 { u64::MAX } else { (1u64 << bits) - 1 };
+        let mut v = (*self.pick(&DICT) as u64) << (8 * self.below(lanes));
+        if self.coin() {
+            v |= (*self.pick(&DICT) as u64) << (8 * self.below(lanes));
+        }
+        v & mask
+    }
     pub fn bytes(&mut self, n: usize) -> Vec<u8> {
+        if n > 0 && self.below(5) == 0 {
+            // marker bytes only (see dict_scalar)
+            return (0..n).map(|_| *self.pick(&DICT)).collect();
+        }
         (0..n).map(|_| self.next() as u8).collect()
     }
 }
